@@ -3,11 +3,11 @@ SPEC = {
     "id": "C02",
     "level": "other",
     "sidecars": ["utils"],
-    "functions": [U + "normpath", "ural/canonicalize_url.py:canonicalize_url"],
+    "functions": [U + "normpath", U + "decode_punycode_hostname", "ural/canonicalize_url.py:canonicalize_url"],
     "function_sidecars": {"ural/canonicalize_url.py:canonicalize_url": ["canonicalize_url"]},
     "bounded": ["bcheck.c02"],
     "explanation": (
-        "Deciding step is BOUNDED: relational clauses between calls of the real canonicalize_url - idempotence, the mode round trips "
+        "Deductive extra added later: decode_punycode_hostname works label by label, in order, touches only labels starting with 'xn--' (any case) and hands them to the idna codec with the header lower-cased; every other label is kept as is (one spelling per label, no whole-host decoding). Deciding step is BOUNDED: relational clauses between calls of the real canonicalize_url - idempotence, the mode round trips "
         "(quoted/unquoted are two views of one URL) and canonicalize(T(u)) == canonicalize(u) for every spelling transformation T of the "
         "statement, alone on every base URL of the grammar (one hot component with all token sequences up to the stated length) and "
         "pairwise composed on random multi-component URLs. Deductive extra (all inputs): normpath's output segment list has no dot "
